@@ -45,7 +45,8 @@ From TarpcV Require Import TimerWheel Server ServerMon ServerState ServerFuel Se
    deadline-timer queue and the request table hold the same ids (no timer-only and no entry-only
    leak), and the two gauges agree after every op.  (The full monitor - in_flight equals the
    yielded incarnations not yet answered, cancelled, expired or abandoned, outside the K2 class -
-   is ServerSpec.stmt_s11_rel; it runs on the real traces on every run.) *)
+   is ServerSpec.stmt_s11_rel / stmt_s11; it runs on the real traces on every run and is proved
+   below: C11_server_monitor_rel, C11_server_monitor, and through execute() the *_exec forms.) *)
 Theorem C11_server_timers_track_requests : forall (T C : Type) (tp : transport T response cmsg)
     (ctl : T -> C -> T) (tfuel : T -> nat) (c : cfg) (t0 : T) (ops : list (op C)),
   let s := snd (run tp ctl tfuel c t0 ops) in
@@ -80,6 +81,31 @@ Theorem C11_server_monitor : forall (T C : Type) (tp : transport T response cmsg
   c11s_ok c ops (fst (run tp ctl tfuel c t0 ops)) = true.
 Proof. exact s11_holds. Qed.
 
+(* for a channel driven through tarpc's own execute() (ServerExec.v: futures TakeWhile/FilterMap/Map
+   transcribed, tied to the real Channel::execute by the srvx driver): stops_after_error is
+   discharged, only B1 (and the known class) remains *)
+From TarpcV Require Import ServerExec ServerExecProofs ServerExecProofs2.
+Theorem C11_server_monitor_rel_exec : forall (T C : Type) (tp : transport T response cmsg) (ctl : T -> C -> T)
+    (tfuel : T -> nat) (c : cfg) (t0 : T) (eops : list (eop C)),
+  tfuel_ok tp tfuel ->
+  let ops := exec_ops tp ctl tfuel c t0 eops in
+  let v := observe c ops (exec_trace tp ctl tfuel c t0 eops) in
+  c11s_rel_ok c ops (exec_trace tp ctl tfuel c t0 eops) = true
+  /\ h_stop v = true /\ v_bad v = false /\ (h_b1 v = true -> v11_rel v = true).
+Proof. exact ServerExecProofs2.C11_server_monitor_rel_exec. Qed.
+
+Theorem C11_server_monitor_exec : forall (T C : Type) (tp : transport T response cmsg) (ctl : T -> C -> T)
+    (tfuel : T -> nat) (c : cfg) (t0 : T) (eops : list (eop C)),
+  tfuel_ok tp tfuel ->
+  let ops := exec_ops tp ctl tfuel c t0 eops in
+  let v := observe c ops (exec_trace tp ctl tfuel c t0 eops) in
+  limiter_blocked_on_sink c ops (exec_trace tp ctl tfuel c t0 eops) = false ->
+  c11s_ok c ops (exec_trace tp ctl tfuel c t0 eops) = true
+  /\ h_stop v = true /\ v_bad v = false /\ (h_b1 v = true -> v11 v = true).
+Proof. exact ServerExecProofs2.C11_server_monitor_exec. Qed.
+
+Print Assumptions C11_server_monitor_rel_exec.
+Print Assumptions C11_server_monitor_exec.
 Print Assumptions C11_client_bound.
 Print Assumptions C11_client_monitor.
 Print Assumptions C11_server_timers_track_requests.
